@@ -33,6 +33,9 @@ type tcase struct {
 	Faulty []int   `json:"faulty"` // indices of arbitrary values (len <= (n-1)/3)
 	Perm   []int   `json:"perm"`   // permutation applied for the order-independence check
 	TS     []int64 `json:"ts,omitempty"` // unix ns timestamps (meas)
+	// Far (meas): 0 = the timestamp is TS[i]; 1 = the zero time.Time (what a source that never measured reports);
+	// 2 = a date in the year 9000. Such timestamps are more than 292 years from the others (time.Time.Sub saturates).
+	Far []int `json:"far,omitempty"`
 }
 
 type failer interface {
@@ -145,7 +148,7 @@ func meas(c tcase) []measurements.Measurement {
 	ms := make([]measurements.Measurement, len(c.Values))
 	for i := range ms {
 		ms[i] = measurements.Measurement{
-			Timestamp: time.Unix(0, 0).Add(time.Duration(c.TS[i])),
+			Timestamp: tsOf(c, i),
 			Offset:    time.Duration(c.Values[i]),
 		}
 		if i%3 == 1 {
@@ -155,12 +158,26 @@ func meas(c tcase) []measurements.Measurement {
 	return ms
 }
 
+func tsOf(c tcase, i int) time.Time {
+	if i < len(c.Far) {
+		switch c.Far[i] {
+		case 1:
+			return time.Time{}
+		case 2:
+			return time.Date(9000, 6, 1, 12, 0, 0, int(c.TS[i]%1e9+1e9)%1e9, time.UTC)
+		}
+	}
+	return time.Unix(0, 0).Add(time.Duration(c.TS[i]))
+}
+
+func isFar(c tcase, i int) bool { return i < len(c.Far) && c.Far[i] != 0 }
+
 type mkey struct{ off, ts int64 }
 
 func mset(ms []measurements.Measurement) []mkey {
 	ks := make([]mkey, len(ms))
 	for i, m := range ms {
-		ks[i] = mkey{int64(m.Offset), m.Timestamp.UnixNano()}
+		ks[i] = mkey{int64(m.Offset), m.Timestamp.Unix()<<20 ^ int64(m.Timestamp.Nanosecond())}
 	}
 	sort.Slice(ks, func(a, b int) bool {
 		if ks[a].off != ks[b].off {
@@ -174,7 +191,7 @@ func mset(ms []measurements.Measurement) []mkey {
 // tsOK: ts is (within 1 ns) the midpoint of the timestamps of some admissible
 // pair: one element with offset lo, a different element with offset hi (ties
 // make the sort's choice ambiguous; every admissible pair is accepted).
-func tsOK(c tcase, ts int64, lo, hi int64, same bool) bool {
+func tsOK(c tcase, ts time.Time, lo, hi int64, same bool) bool {
 	for i, a := range c.Values {
 		if a != lo {
 			continue
@@ -183,8 +200,17 @@ func tsOK(c tcase, ts int64, lo, hi int64, same bool) bool {
 			if b != hi || (i == j) != same {
 				continue
 			}
-			x, y := c.TS[i], c.TS[j]
-			if ts >= min(x, y) && ts <= max(x, y) && midOK(ts, x, y) {
+			x, y := tsOf(c, i), tsOf(c, j)
+			if x.After(y) {
+				x, y = y, x
+			}
+			if ts.Before(x) || ts.After(y) {
+				continue // the statement: between the timestamps of the two selected measurements
+			}
+			if isFar(c, i) || isFar(c, j) {
+				return true // more than 292 years apart: only "between" is required
+			}
+			if midOK(ts.UnixNano(), c.TS[i], c.TS[j]) {
 				return true
 			}
 		}
@@ -220,8 +246,8 @@ func checkMeas(t failer, c tcase) {
 	if o := int64(got.Offset); o < clo || o > chi || !midOK(o, sorted[f], sorted[n-1-f]) {
 		t.Fatalf("measurement FTM(%v).Offset = %d outside [%d,%d] or not the midpoint of %d,%d", c.Values, o, clo, chi, sorted[f], sorted[n-1-f])
 	}
-	if !tsOK(c, got.Timestamp.UnixNano(), sorted[f], sorted[n-1-f], f == n-1-f) {
-		t.Fatalf("measurement FTM timestamp %d is not between/at the midpoint of the timestamps of the selected pair (values %v ts %v)", got.Timestamp.UnixNano(), c.Values, c.TS)
+	if !tsOK(c, got.Timestamp, sorted[f], sorted[n-1-f], f == n-1-f) {
+		t.Fatalf("measurement FTM timestamp %d is not between/at the midpoint of the timestamps of the selected pair (values %v ts %v far %v; got %v)", got.Timestamp.Unix(), c.Values, c.TS, c.Far, got.Timestamp)
 	}
 	if !slices.Equal(before, mset(in)) {
 		t.Fatalf("measurement FTM changed the slice beyond reordering")
@@ -246,11 +272,11 @@ func checkMeas(t failer, c tcase) {
 		t.Fatalf("measurement Median offset %d outside [%d,%d]", o, alo, ahi)
 	}
 	if n%2 == 1 {
-		if o != sorted[n/2] || !tsOK(c, med.Timestamp.UnixNano(), sorted[n/2], sorted[n/2], true) {
+		if o != sorted[n/2] || !tsOK(c, med.Timestamp, sorted[n/2], sorted[n/2], true) {
 			t.Fatalf("measurement Median (odd) = (%d,%d) not an input with the median offset %d", o, med.Timestamp.UnixNano(), sorted[n/2])
 		}
 	} else {
-		if !midOK(o, sorted[n/2-1], sorted[n/2]) || !tsOK(c, med.Timestamp.UnixNano(), sorted[n/2-1], sorted[n/2], false) {
+		if !midOK(o, sorted[n/2-1], sorted[n/2]) || !tsOK(c, med.Timestamp, sorted[n/2-1], sorted[n/2], false) {
 			t.Fatalf("measurement Median (even) = (%d,%d) not the midpoint of the middle pair (values %v ts %v)", o, med.Timestamp.UnixNano(), c.Values, c.TS)
 		}
 	}
@@ -335,6 +361,9 @@ func genCase(t *rapid.T, kind string) tcase {
 		base := int64(946684800) * 1e9 // 2000-01-01
 		tg := rapid.OneOf(rapid.Int64Range(base-span, base+span), rapid.Int64Range(base, base+10), rapid.Just(base))
 		c.TS = rapid.SliceOfN(tg, n, n).Draw(t, "ts")
+		if rapid.IntRange(0, 3).Draw(t, "far-timestamps") == 0 {
+			c.Far = rapid.SliceOfN(rapid.SampledFrom([]int{0, 0, 1, 1, 2}), n, n).Draw(t, "far")
+		}
 	}
 	return c
 }
